@@ -243,6 +243,35 @@ def valid_history(c):
     return True
 
 
+def gen_gate(rng):
+    """a full window, then several losses / CE marks of the same flight detected one by one with
+    retransmissions in between (the pattern in which a second allowance would show), mixed with
+    the general histories"""
+    if rng.random() < 0.5:
+        return gen_history(rng)
+    m = rng.choice(MDS_CHOICES)
+    c = [m]
+    n = rng.choice([10, 12, 20])
+    for _ in range(n):
+        c += [1, m, 1, 0, rng.choice([0, 1])]
+    left = n
+    for _ in range(rng.choice([2, 3, 5])):
+        if left < 2:
+            break
+        if rng.random() < 0.75:
+            c += [3, m, 0, rng.choice([0, 1]), rng.choice([1, 100, 1000])]
+            left -= 1
+        else:
+            c += [4, 1, 0, 0, rng.choice([1, 100])]
+        if rng.random() < 0.8:
+            c += [1, m, 1, 0, rng.choice([0, 1])]
+            left += 1
+        if rng.random() < 0.3 and left > 1:
+            c += [2, m, rng.choice([0, 5000, 10_000_000]), 25000, rng.choice([1, 1000])]
+            left -= 1
+    return c
+
+
 def hystart_case(m, base, inc):
     c = [m]
     now = [0]
@@ -395,6 +424,10 @@ registry.register("C10", {
          "model": False, "valid": valid_history,
          "nontrivial": lambda case, out: any(case[i] in (3, 4) for i in range(1, len(case), 5)) and any(case[i] == 2 for i in range(1, len(case), 5)),
          "histogram": lambda cases, outs: {"ops": _kinds(cases), "state_kinds": _states(outs, 9, 3)}},
+        # the same CUBIC rows judged for the recovery allowance (RFC 9002 7.3.2: one packet when entering recovery)
+        {"name": "cubic_gate", "gen": gen_gate, "fixed": fixed_cubic, "quick": 8000, "thorough": 150000,
+         "model": False, "valid": valid_history,
+         "nontrivial": lambda case, out: sum(1 for i in range(1, len(case), 5) if case[i] in (3, 4)) >= 2},
         {"name": "bbr", "gen": gen_bbr, "fixed": fixed_bbr, "quick": 6000, "thorough": 120000,
          "model": False, "valid": valid_history,
          "nontrivial": lambda case, out: any(case[i] in (3, 4) for i in range(1, len(case), 5)) and any(case[i] == 2 for i in range(1, len(case), 5)),
